@@ -36,6 +36,24 @@ class Sq(odl.Operator):
         out += self.c
 
 
+class Stencil(odl.Operator):
+    """Harness-defined *linear* leaf whose in-place evaluation is not alias-safe (like the library's stencil
+    operators): out[i] = x[i] + 0.5 * x[i+1] (cyclic), written entry by entry.  Expression nodes must never call
+    a leaf with out aliased to its input; if one does, this leaf returns a wrong value and the interpreter sees it."""
+
+    def __init__(self, sp):
+        super(Stencil, self).__init__(sp, sp, linear=True)
+
+    def _call(self, x, out):
+        n = self.domain.size
+        for i in range(n):
+            out[i] = x[i] + 0.5 * x[(i + 1) % n]
+
+    @staticmethod
+    def ref(x):
+        return x + 0.5 * np.roll(x, -1)
+
+
 class Env(object):
     """Spaces, leaves and random scalars / vectors for one field."""
 
@@ -93,6 +111,7 @@ class Env(object):
             ('Scaling', odl.ScalingOperator(sp, 0.7), lambda x: 0.7 * x, sp, sp, True),
             ('Multiply', odl.MultiplyOperator(v), lambda x, va=va: va * x, sp, sp, True),
             ('Sq', Sq(sp, c), lambda x, ca=ca: x * x + ca, sp, sp, False),
+            ('Stencil', Stencil(sp), Stencil.ref, sp, sp, True),
             ('Power3', odl.PowerOperator(sp, 3), lambda x: x ** 3, sp, sp, False),
             ('Constant', odl.ConstantOperator(c), lambda x, ca=ca: ca + 0 * x, sp, sp, False),
             ('InnerProduct', odl.InnerProductOperator(w), lambda x, wa=wa: np.sum(x * np.conj(wa)), sp, self.fld, True),
@@ -203,6 +222,14 @@ def evaluate(ctx, env, node, comp, cfg):
             exp = ref(xa)
         if not np.all(np.isfinite(np.asarray(exp, dtype=complex))) or np.abs(np.asarray(exp)).max() > 1e12:
             ctx.skip('reference overflow')
+            return
+        # conditioning guard: a relative input perturbation of 1e-13 must not move the reference by more than the
+        # comparison tolerance (sin of huge iterated powers etc. amplify rounding chaotically: no reference value)
+        with np.errstate(all='ignore'):
+            exp_p = ref(xa * (1 + 1e-13))
+        sc0 = max(1.0, float(np.abs(np.asarray(exp)).max()))
+        if not np.all(np.isfinite(np.asarray(exp_p, dtype=complex))) or float(np.abs(np.asarray(exp_p) - np.asarray(exp)).max()) > 1e-10 * sc0:
+            ctx.skip('ill-conditioned expression at the evaluation point')
             return
         if op.domain != dom or op.range != ran:
             ctx.violation(comp, cfg, 'domain/range', expr=txt, got=(util.srepr(op.domain, 40), util.srepr(op.range, 40)))
